@@ -231,6 +231,7 @@ PROPS = {
         "assumptions": ["no cancellation (cancelling is not a decoding failure)"],
     },
     "C06": {
+        "gen": True,
         "streams": ["sched-close"],
         "rule": "sched-close (isolated child): five reader entry points x four stream shapes (single tiny chunk; one 250-sample chunk > the 100-slot document buffers; 60 chunks > the "
                 "25-slot matrix buffer and the 2-slot chunk pipe; 4 small chunks) x cancel points k in {0,1,2,total/2,total-1,total,total+1} (thorough: every k) x {Close, context "
@@ -238,9 +239,14 @@ PROPS = {
                 "Distinct = (reader, action, k, stream).",
         "level_text": "Theorems (Props/C06.lean) on the ReadChunks transition system with cancel as a scheduler choice at any point: after cancellation, while a producer goroutine is "
                       "alive one of them can move (no goroutine blocked forever), every producer step strictly decreases a natural-number potential, consumer and cancel steps do not "
-                      "increase it, potential 0 = both exited, Next never blocks once the producers have exited, a second cancel is not a step.",
-        "level_note": "Bounded time is bounded steps; the wall-clock bound is the harness watchdog. The worker/streamer goroutines of the document, matrix and series iterators have the same "
-                      "select-with-ctx.Done shape; their termination is observed on every case (goroutine profile), their transition systems are not written out (finding F7 was in that layer).",
+                      "increase it, potential 0 = both exited, Next never blocks once the producers have exited, a second cancel is not a step. The layers above (document, matrix, series "
+                      "and per-chunk iterators) are one generic worker transition system (Model/Layer.lean) with the same theorems (layer_worker_never_blocked, "
+                      "layer_worker_steps_decrease, layer_other_steps_keep, layer_next_after_exit); what that model assumes of the code is REGENERATED from the source on every run "
+                      "(go/ast extractor -> Gen/Facts.lean) and checked by decide: every select of the reader pipeline has a <-ctx.Done() arm (every_select_has_cancel_arm), no "
+                      "channel send stands outside a select (no_bare_send), every Close calls the iterator's own cancel function (every_close_cancels).",
+        "level_note": "Bounded time is bounded steps; the wall-clock bound is the harness watchdog. The layer theorem takes 'the layer below closes its pipe after cancel' as an "
+                      "environment action (it is the theorem of that layer); the composition of the stack is by that induction, not one product system. The regenerated facts are "
+                      "syntactic (a renamed cancel field breaks them although nothing is wrong: reported with no-failing-input-found). Finding F7 was in the matrix layer.",
         "assumptions": [],
     },
     "C19": {
